@@ -10,7 +10,85 @@ from . import stages
 PROPS = stages.PROPS
 
 
+def _pair_judge(pid, tag, stage, cases, nchunks=None):
+    """Stages that compare two executions of the same workload (C19: alone vs concurrent; C20: two heap fill
+    patterns, and a run under memcheck).  The cases are split into parts that run and are judged side by side."""
+    exe = core.build(stage.get('variant', 'plain'))
+    lines = [l for l in open(cases) if l.strip()]
+    mode = stage['mode']
+    nparts = 1 if nchunks == 1 else max(1, min(core.NCPU // (4 if mode == 'threads' else 1), len(lines) // stage.get('per_part', 40)))
+    if mode == 'threads':
+        # keep whole runs together: a part is a set of runs, each run a set of threads
+        runs = {}
+        for l in lines:
+            runs.setdefault(json.loads(l).get('run', 0), []).append(l)
+        groups = [[] for _ in range(min(nparts, len(runs)))]
+        for k, r in enumerate(sorted(runs)):
+            groups[k % len(groups)].append(runs[r])
+    else:
+        groups = [[lines[k::nparts]] for k in range(nparts)]
+    tdir = os.path.join(core.OUT, 'trace')
+    os.makedirs(tdir, exist_ok=True)
+
+    def part(k):
+        res = {'events': 0, 'fails': [], 'counts': {}, 'dropped_lines': 0}
+        for r, runlines in enumerate(groups[k]):
+            base = os.path.join(tdir, '%s.p%d.r%d' % (tag, k, r))
+            cp = base + '.cases'
+            with open(cp, 'w') as f:
+                f.writelines(runlines)
+            pairs = []
+            if mode == 'threads':
+                core.run_exec(exe, cp, base, pre='--threads', env=stage.get('env'))
+                ths = sorted(set(json.loads(l).get('thread', 0) for l in runlines))
+                a, b = base + '.A', base + '.B'
+                for dst, kind in ((a, 'alone'), (b, 'conc')):
+                    with open(dst, 'w') as f:
+                        for t in ths:
+                            p = '%s.%s.%d' % (base, kind, t)
+                            if os.path.exists(p):
+                                f.write(open(p, errors='replace').read())
+                                os.remove(p)
+                pairs.append((a, b))
+            else:
+                a, b = base + '.A', base + '.B'
+                core.run_exec(exe, cp, a, env={'MALLOC_PERTURB_': '165'})
+                core.run_exec(exe, cp, b, env={'MALLOC_PERTURB_': '90'})
+                pairs.append((a, b))
+                if stage.get('memcheck'):
+                    v = base + '.V'
+                    core.run_exec(exe, cp, v, env={'MALLOC_PERTURB_': '165', 'VERIF_WATCHDOG': '600'},
+                                  wrapper='valgrind -q --error-exitcode=97 --exit-on-first-error=yes --undef-value-errors=yes '
+                                          '--child-silent-after-fork=no --trace-children=no')
+                    pairs.append((a, v))
+            for x, y in pairs:
+                j = core.judge('TraceSame', x, '%s.p%d.r%d.%s' % (tag, k, r, os.path.basename(y)[-1]), nchunks=1,
+                               env={'TRACE2': y, 'PROP': pid}, second=y)
+                res['events'] += j['events']
+                res['fails'] += j['fails']
+                for c, v in j['counts'].items():
+                    res['counts'][c] = res['counts'].get(c, 0) + v
+            for x in set(sum(([a, b] for a, b in pairs), [])):
+                if os.path.exists(x) and not os.environ.get('VERIF_KEEP'):
+                    os.remove(x)
+            os.remove(cp)
+        return res
+
+    from concurrent.futures import ThreadPoolExecutor
+    with ThreadPoolExecutor(len(groups)) as ex:
+        parts = list(ex.map(part, range(len(groups))))
+    out = {'events': 0, 'fails': [], 'counts': {}, 'dropped_lines': 0}
+    for r in parts:
+        out['events'] += r['events']
+        out['fails'] += r['fails']
+        for c, v in r['counts'].items():
+            out['counts'][c] = out['counts'].get(c, 0) + v
+    return out
+
+
 def _judge_cases(pid, tag, stage, cases, nchunks=None):
+    if stage.get('mode'):
+        return _pair_judge(pid, tag, stage, cases, nchunks)
     exe = core.build(stage.get('variant', 'plain'))
     trace = os.path.join(core.OUT, 'trace', tag + '.ndjson')
     os.makedirs(os.path.dirname(trace), exist_ok=True)
